@@ -1,19 +1,35 @@
 /- GENERATED: instance obligations for one logic, discharged by kernel evaluation.
-   `X ⊆ known`: every failing row is a committed known finding (Ptx/Gen/Known.lean). -/
+   `S` = the logic with its DOCUMENTED tables (Ptx/Sem/Spec.lean); rules, closure, trunk and frames
+   are what the translator read off the code.  `X ⊆ known`: every failing row is a committed
+   known finding (Ptx/Gen/Known.lean, generated from known_findings.json). -/
 import Ptx.Gen.L_S4B3E
 import Ptx.Gen.Known
 import Ptx.Sem.Subset
+import Ptx.Props.C01
+import Ptx.Gen.L_B3E
 namespace Ptx.Gen.Obl.S4B3E
 open Ptx
 
-theorem tables_total : Gen.S4B3E.tablesTotalB = true := by decide +kernel
-theorem rules_exact : subsetB Gen.S4B3E.badRules (Known.badRules "S4B3E") = true := by decide +kernel
-theorem rules_sound : subsetB Gen.S4B3E.unsoundRules (Known.unsoundRules "S4B3E") = true := by decide +kernel
-theorem rules_total : subsetB Gen.S4B3E.missingRules (Known.missingRules "S4B3E") = true := by decide +kernel
-theorem rules_local : Gen.S4B3E.nonLocalRules = [] := by decide +kernel
-theorem closure_total : Gen.S4B3E.closureTotalB = true := by decide +kernel
-theorem closure_exact : subsetB Gen.S4B3E.badClosure (Known.badClosure "S4B3E") = true := by decide +kernel
-theorem read_total : Gen.S4B3E.readTotalB = true := by decide +kernel
-theorem read_exact : subsetB Gen.S4B3E.badRead (Known.badRead "S4B3E") = true := by decide +kernel
+/-- a modal / first-order extension has exactly the truth-functional tables of its base (B3E) -/
+theorem base_tables : Gen.S4B3E.tables.sameTF Gen.B3E.tables = true := by decide +kernel
+theorem spec_defined : Gen.S4B3E.specDefinedB = true := by decide +kernel
+theorem tables_spec : subsetB Gen.S4B3E.tableDiff (Known.tableDiff "S4B3E") = true := by decide +kernel
+theorem defined_ops : Gen.S4B3E.tables.definedOpsBad = [] := by decide +kernel
+theorem tables_total : Gen.S4B3E.sem.tablesTotalB = true := by decide +kernel
+theorem rules_exact : subsetB Gen.S4B3E.sem.badRules (Known.badRules "S4B3E") = true := by decide +kernel
+theorem rules_sound : subsetB Gen.S4B3E.sem.unsoundRules (Known.unsoundRules "S4B3E") = true := by decide +kernel
+theorem rules_total : subsetB Gen.S4B3E.sem.missingRules (Known.missingRules "S4B3E") = true := by decide +kernel
+theorem rules_local : Gen.S4B3E.sem.nonLocalRules = [] := by decide +kernel
+theorem closure_total : Gen.S4B3E.sem.closureTotalB = true := by decide +kernel
+theorem closure_exact : subsetB Gen.S4B3E.sem.badClosure (Known.badClosure "S4B3E") = true := by decide +kernel
+theorem read_total : Gen.S4B3E.sem.readTotalB = true := by decide +kernel
+theorem read_exact : subsetB Gen.S4B3E.sem.badRead (Known.badRead "S4B3E") = true := by decide +kernel
+theorem sound_core : Gen.S4B3E.sem.soundCoreB = true := by decide +kernel
+
+/-- C01 for this logic: a closed tableau reached by any legal derivation has no countermodel. -/
+theorem c01_valid_sound (arg : Argument) (t : Tableau)
+    (hd : Deriv Gen.S4B3E.sem.soundPart.noQuantPart (trunk Gen.S4B3E.sem arg) t) (hclosed : t.allClosed = true)
+    (M : Struct) (hM : M.Interp Gen.S4B3E.sem) (e : Env M.D) (w0 : M.W) : ¬ Countermodel Gen.S4B3E.sem M e w0 arg :=
+  Props.C01.C01_valid_sound_partial Gen.S4B3E.sem sound_core arg t hd hclosed M hM e w0
 
 end Ptx.Gen.Obl.S4B3E
